@@ -1,14 +1,14 @@
 SPECIFICATION MCSpec
 CONSTANTS
-  NT = 1
-  NM = 2
-  UDP = FALSE
+  NT = 2
+  NM = 1
+  UDP = TRUE
   CMIN = 2
   BO = 3
-  IVALS <- IvSmall
-  ASIS = {"tier"}
+  IVALS <- IvOne
+  ASIS = {"errkeep"}
   CIDS = {0}
-  ENV = {"complete", "flip", "stop"}
+  ENV = {"flip", "stop"}
 INVARIANT Inv
 PROPERTY Live
 CHECK_DEADLOCK FALSE
